@@ -49,7 +49,7 @@ def algos():
 def mk_costs(c):
     return {
         NodeEvent.SPECIATION: c["spe"],
-        NodeEvent.DUPLICATION: c["dup"],
+        NodeEvent.DUPLICATION: (INFTY if c["dup"] == math.inf else c["dup"]),
         NodeEvent.HORIZONTAL_TRANSFER: (INFTY if c["hgt"] == math.inf else c["hgt"]),
         EdgeEvent.FULL_LOSS: c["floss"],
         EdgeEvent.SEGMENTAL_LOSS: c.get("sloss", 1),
